@@ -39,7 +39,12 @@ func restartCmd() *cobra.Command {
 
 			// Load the DAG file and stop the DAG if it is running.
 			specFilePath := args[0]
-			workflow, err := dag.Load(cfg.BaseConfig, specFilePath, "")
+			// This first load only identifies the DAG (to stop it and to find
+			// its previous run). It must not evaluate the definition: that
+			// would export the file's default parameters into this process,
+			// and the restarted run, which repeats the previous run's
+			// parameters, would see defaults that run never had.
+			workflow, err := dag.LoadWithoutEval(specFilePath)
 			if err != nil {
 				initLogger.Fatal("Workflow load failed", "error", err, "file", args[0])
 			}
@@ -52,9 +57,6 @@ func restartCmd() *cobra.Command {
 					"error", err,
 					"workflow", workflow.Name)
 			}
-
-			// Wait for the specified amount of time before restarting.
-			waitForRestart(workflow.RestartWait, initLogger)
 
 			// Retrieve the parameter of the previous execution.
 			params, err := getPreviousExecutionParams(cli, workflow)
@@ -73,6 +75,9 @@ func restartCmd() *cobra.Command {
 					"file", specFilePath,
 					"params", params)
 			}
+
+			// Wait for the specified amount of time before restarting.
+			waitForRestart(workflow.RestartWait, initLogger)
 
 			requestID, err := generateRequestID()
 			if err != nil {
